@@ -1,7 +1,7 @@
 """C05 — each DMR CRC equals the polynomial remainder the standard defines, with its mask.
 
-Engines (CRC-7/8/9/16/32, bitwise and table-driven, long-lived and freshly built calculators, the class-level CALC
-singletons) against the GF(2) polynomial division of vp/refs/gf2.py for every length 0..400; front ends (CRC8, CRC9,
+Engines (CRC-7/8/9/16/32, bitwise and table-driven calculators, the class-level CALC singletons, single calls and
+call histories) against the GF(2) polynomial division of vp/refs/gf2.py for every length 0..400; front ends (CRC8, CRC9,
 CRC9.calculate_from_parts, CRC16, CRC32) against vp/refs/crc_ref.py (inversion, data-type mask, octet-pair swap written
 from ETSI TS 102 361-1 B.3.7-B.3.12); `check`/`verify_checksum` accept exactly the computed value; detection of every
 burst no longer than the CRC width and of every 1..3-bit error of a 96-bit CRC-CCITT PDU through the library API.
@@ -11,7 +11,9 @@ array in the library is built inside CRC32.calculate and is reached through that
 """
 from __future__ import annotations
 
+import importlib
 import itertools
+import json
 
 from bitarray import bitarray
 from bitarray.util import ba2int
@@ -23,9 +25,11 @@ LEVEL = "exploration"
 RULE = (
     "engines: configurations {crc7,crc8,crc9,crc16,crc32} x EVERY length 0..400 x {zero word, all-ones, seeded random "
     "contents} (enumeration over lengths), all unit vectors of lengths {w-1,w,w+1,2w+3,96,183,400}, Hypothesis-drawn "
-    "(config, length, contents, previous message) and GF(2)-linearity pairs; each case runs the bitwise and the table "
-    "register, long-lived and freshly built, plus the class-level CALC singleton, after a 'previous' message (none, random, or "
-    "related: zero-extended inside the same octet, one bit shorter, last / first bit inverted) that dirties the calculator.  Front ends: Hypothesis-drawn bit strings 0..400 (CRC8, CRC9 x 3 masks), octet strings 0..64 (CRC16 x 5 "
+    "(config, length, contents, previous message) and GF(2)-linearity pairs; each case runs a freshly built bitwise and "
+    "table calculator plus the class-level CALC singleton (reset to import-time state), each after a 'previous' message "
+    "(none, random, or related: zero-extended inside the same octet, one bit shorter, last / first bit inverted) that "
+    "dirties the calculator.  Histories: Hypothesis-drawn sequences of 2..10 random / related messages through ONE "
+    "calculator or front end starting from freshly re-imported modules.  Front ends: Hypothesis-drawn bit strings 0..400 (CRC8, CRC9 x 3 masks), octet strings 0..64 (CRC16 x 5 "
     "masks, CRC32), CRC-9 parts (data 0..24 octets, serial 0..127, crc32 absent / int in [1,2^32) / 4 octets).  Acceptance: "
     "all 2^w check values for w<=16 on sampled messages, computed value +-1 and all single-bit neighbours elsewhere.  "
     "Detection: ALL error patterns of weight 1..3 over the 96 bits (80 data + 16 CRC) of a CRC-CCITT PDU per sampled "
@@ -33,7 +37,7 @@ RULE = (
     "at sampled offsets, through engines and front ends.  Distinct = hash of the case (Hypothesis parts) or distinct by "
     "construction (enumerations).  Non-trivial: engine / bit-level front-end cases whose length is >= one table feed and "
     "not a multiple of the feed width (partial-feed fallback after >= 1 table step) with non-zero contents; octet front "
-    "ends: >= 2 octets, non-zero; every error pattern."
+    "ends: >= 2 octets, non-zero; every error pattern; histories with >= 2 distinct messages."
 )
 ASSUMPTIONS = [
     "bit strings are big-endian bitarrays (library default); little-endian arrays make the two register modes disagree and "
@@ -46,6 +50,10 @@ ASSUMPTIONS = [
     "detection guarantees are derived, not assumed: bursts <= w from gcd(G,x)=1; weight 2 from 'x^d != 1 mod G for d < word "
     "length'; weight 3 from (x+1) | G (crc_ref.guaranteed_weights)",
     "CRC9.calculate_from_parts: crc32 given as int 0 means 'absent' (documented sentinel of the PDU classes) and is not generated",
+    "every oracle call starts from a defined library state: calculators are built inside the oracle and CRCn.CALC is re-created "
+    "with the class body's own expression BitCrcCalculator(table_based=True, configuration=CrcN.ETSI_DMR) (the history "
+    "sub-check re-imports the modules instead); state carried across calls is therefore observed inside one case "
+    "('prev', 'msgs'), never between cases - replay files reproduce",
 ]
 
 CFGS = ["crc7", "crc8", "crc9", "crc16", "crc32"]
@@ -76,41 +84,46 @@ def lib_cfg(cfg):
     return {"crc7": m.Crc7, "crc8": m.Crc8, "crc9": m.Crc9, "crc16": m.Crc16, "crc32": m.Crc32}[cfg].ETSI_DMR
 
 
-def singleton(cfg):
-    if cfg == "crc8":
-        from okdmr.dmrlib.etsi.crc.crc8 import CRC8
-
-        return CRC8.CALC
-    if cfg == "crc9":
-        from okdmr.dmrlib.etsi.crc.crc9 import CRC9
-
-        return CRC9.CALC
-    if cfg == "crc16":
-        from okdmr.dmrlib.etsi.crc.crc16 import CRC16
-
-        return CRC16.CALC
-    if cfg == "crc32":
-        from okdmr.dmrlib.etsi.crc.crc32 import CRC32
-
-        return CRC32.CALC
-    return None
+FE_MODULE = {"crc8": ("okdmr.dmrlib.etsi.crc.crc8", "CRC8"), "crc9": ("okdmr.dmrlib.etsi.crc.crc9", "CRC9"),
+             "crc16": ("okdmr.dmrlib.etsi.crc.crc16", "CRC16"), "crc32": ("okdmr.dmrlib.etsi.crc.crc32", "CRC32")}
 
 
-_LONG_LIVED = {}
+def fe_class(cfg):
+    """CRC8 / CRC9 / CRC16 / CRC32 front-end class (looked up at call time: the history oracle reloads the modules)."""
+    if cfg not in FE_MODULE:
+        return None
+    mod, name = FE_MODULE[cfg]
+    return getattr(importlib.import_module(mod), name)
+
+
+def reset_singleton(cfg):
+    """Put the class-level calculator of a front end back into its import-time state by re-evaluating the expression of
+    the class body (BitCrcCalculator(table_based=True, configuration=CrcN.ETSI_DMR)): an oracle call must not depend on
+    what earlier cases left behind in a long-lived object (purity; replay files must reproduce).  Histories on ONE
+    long-lived calculator are the business of the `history` sub-check and of the `prev` message inside a case."""
+    cls = fe_class(cfg)
+    if cls is None:
+        return None
+    cls.CALC = call(_lib().BitCrcCalculator, table_based=True, configuration=lib_cfg(cfg))[1]
+    return cls.CALC
+
+
+def pristine_modules(cfg):
+    """Re-import the engine module and the front-end module: import-time state of everything (table cache, singletons)."""
+    importlib.reload(importlib.import_module("okdmr.dmrlib.etsi.crc.crc"))
+    if cfg in FE_MODULE:
+        importlib.reload(importlib.import_module(FE_MODULE[cfg][0]))
 
 
 def calculators(cfg):
-    """[(label, calculator)]: long-lived bitwise/table calculators (per process), freshly built ones, the CALC singleton."""
+    """[(label, calculator)]: a freshly built bitwise and a freshly built table calculator and the class-level CALC
+    singleton (reset to its import-time state) - all local to the calling oracle."""
     m = _lib()
-    out = []
-    for tb in (False, True):
-        key = (cfg, tb)
-        if key not in _LONG_LIVED:
-            _LONG_LIVED[key] = call(m.BitCrcCalculator, lib_cfg(cfg), table_based=tb)[1]
-        out.append(("table" if tb else "bitwise", _LONG_LIVED[key]))
-    out.append(("bitwise_fresh", call(m.BitCrcCalculator, lib_cfg(cfg), table_based=False)[1]))
-    out.append(("table_fresh", call(m.BitCrcCalculator, lib_cfg(cfg), table_based=True)[1]))
-    s = singleton(cfg)
+    out = [
+        ("bitwise", call(m.BitCrcCalculator, lib_cfg(cfg), table_based=False)[1]),
+        ("table", call(m.BitCrcCalculator, lib_cfg(cfg), table_based=True)[1]),
+    ]
+    s = reset_singleton(cfg)
     if s is not None:
         out.append(("class_singleton", s))
     return out
@@ -252,6 +265,7 @@ def _fe_check(fe, msg, value):
 
 
 FE_WIDTH = {"crc8": 8, "crc9": 9, "crc9_parts": 9, "crc16": 16, "crc32": 32}
+FE_CFG = {"crc8": "crc8", "crc9": "crc9", "crc9_parts": "crc9", "crc16": "crc16", "crc32": "crc32"}
 
 
 def fe_message_bits(fe, msg):
@@ -317,6 +331,7 @@ def oracle_front(case):
     """case = {fe, msg, prev: msg|None, values: 'neighbours'|'all'}: value equals the reference; check() accepts exactly it."""
     fe, msg = case["fe"], case["msg"]
     w = FE_WIDTH[fe]
+    reset_singleton(FE_CFG[fe])
     if case.get("prev") is not None:
         _fe_call(fe, case["prev"])
     got = _fe_call(fe, msg)
@@ -363,6 +378,53 @@ def oracle_captured(case):
     oracle_front({"fe": fe, "msg": msg})
 
 
+# ---------------------------------------------------------------------------------------------- histories
+
+
+def oracle_history(case):
+    """case = {target: 'engine:<cfg>:<bitwise|table|singleton>' | front end, msgs: [msg, …]}: ONE calculator (or one front
+    end with its class-level singleton), starting from import-time state, is fed all messages in order; every result is
+    the reference value of that message alone - the register is re-initialised on every calculation and nothing else
+    survives a call."""
+    target, msgs = case["target"], case["msgs"]
+    if target.startswith("engine:"):
+        _, cfg, mode = target.split(":")
+        pristine_modules(cfg)
+        if mode == "singleton":
+            calc = fe_class(cfg).CALC
+        else:
+            calc = call(_lib().BitCrcCalculator, lib_cfg(cfg), table_based=(mode == "table"))[1]
+        w = crc_ref.WIDTH[cfg]
+        for k, msg in enumerate(msgs):
+            exp = crc_ref.rem(cfg, crc_ref.bits_of(msg["bits"]))
+            got = call(calc.calculate_checksum, bitarray(msg["bits"]))[1]
+            if not isinstance(got, bitarray) or len(got) != w or ba2int(got) != exp:
+                raise Fail("result_independent_of_earlier_calls", {"call": k, "bits": msg["bits"], "crc": got.to01() if isinstance(got, bitarray) else repr(got)},
+                           {"call": k, "bits": msg["bits"], "crc": format(exp, f"0{w}b")}, f"{cfg}:{mode}")
+            ok = call(calc.verify_checksum, bitarray(msg["bits"]), exp)[1]
+            if ok is not True:
+                raise Fail("verify_independent_of_earlier_calls", {"call": k, "result": ok}, {"call": k, "result": True}, f"{cfg}:{mode}")
+        return
+    fe = target
+    pristine_modules(FE_CFG[fe])
+    first = {}
+    for k, msg in enumerate(msgs):
+        got = _fe_call(fe, msg)
+        key = json.dumps(msg, sort_keys=True)
+        if _reference_applies(fe, msg):
+            exp = fe_expected(fe, msg)
+        else:
+            exp = first.setdefault(key, got)  # no reference (CRC-32 of an odd octet count): at least the same value every time
+        if got != exp:
+            raise Fail("result_independent_of_earlier_calls", {"call": k, "msg": msg, "crc": hex(got) if _is_int(got) else repr(got)}, {"call": k, "msg": msg, "crc": hex(exp)}, fe)
+        if fe != "crc9":
+            if _fe_check(fe, msg, got) is not True:
+                raise Fail("verify_independent_of_earlier_calls", {"call": k, "result": False}, {"call": k, "result": True}, fe)
+            other = got ^ (1 << (k % FE_WIDTH[fe]))
+            if _fe_check(fe, msg, other) is not False:
+                raise Fail("verify_independent_of_earlier_calls", {"call": k, "value": hex(other), "result": True}, {"call": k, "value": hex(other), "result": False}, fe)
+
+
 # ---------------------------------------------------------------------------------------------- detection oracles
 
 
@@ -376,6 +438,7 @@ def oracle_weight3(case):
     flips = case["flips"]
     if len(set(flips)) != len(flips) or not flips or len(flips) not in crc_ref.guaranteed_weights("crc16", nd + 16) or max(flips) >= nd + 16:
         raise HarnessError(f"error pattern outside the guaranteed set: {case}")
+    reset_singleton("crc16")
     mk = lib_mask(case["mask"])
     crc = call(CRC16.calculate, data, mk)[1]
     d2 = bytearray(data)
@@ -424,9 +487,10 @@ def oracle_burst(case):
                 raise Fail("burst_up_to_width_changes_crc", cb.to01(), f"!= {ca.to01()}", f"{cfg}:{label}")
         return
     fe = target
-    cfg = {"crc8": "crc8", "crc9": "crc9", "crc9_parts": "crc9", "crc16": "crc16", "crc32": "crc32"}[fe]
+    cfg = FE_CFG[fe]
     if not crc_ref.burst_is_guaranteed(cfg, case["blen"]):
         raise HarnessError("burst longer than the CRC width")
+    reset_singleton(cfg)
     msg = case["msg"]
     a = fe_message_bits(fe, msg)
     b = _apply_burst(a, case["offset"], case["blen"], case["pattern"])
@@ -842,11 +906,74 @@ def drv_burst(ctx: Ctx, sub: SubCheck):
     ctx.tally.notes.append("bursts: all start/end-inverted patterns of each length <= w for w <= 9 (and w = 16 in thorough), sampled for longer ones, at sampled offsets incl. 0, the end, a feed boundary and the partial tail")
 
 
+HISTORY_TARGETS = [f"engine:{c}:{m}" for c in CFGS for m in ("bitwise", "table")] + [f"engine:{c}:singleton" for c in CFGS if c != "crc7"] + ["crc8", "crc9", "crc9_parts", "crc16", "crc32"]
+
+
+def _history_base(target):
+    st = _st()
+    if target.startswith("engine:"):
+        return st.builds(lambda b: {"bits": b}, st.one_of(st_bits(0, 80), st_bits()))
+    return st_front_msg(target)
+
+
+def _history_related(target, msg, kind):
+    fe = target if not target.startswith("engine:") else "bits"
+    if fe == "crc32" and kind in (2, 3):
+        out = dict(msg)
+        out["data"] = msg["data"] + "0000" if kind == 2 else msg["data"][:-4]
+        return out
+    return _related_msg(fe, msg, kind)
+
+
+def st_history():
+    st = _st()
+
+    @st.composite
+    def hist(draw):
+        target = draw(st.sampled_from(HISTORY_TARGETS))
+        base = _history_base(target)
+        msgs = [draw(base)]
+        n_rel = 0
+        for _ in range(draw(st.integers(1, 9))):
+            how = draw(st.integers(0, 5))
+            if how < 2:
+                msgs.append(draw(base))
+            else:
+                msgs.append(_history_related(target, msgs[draw(st.integers(0, len(msgs) - 1))], how))
+                n_rel += 1
+        return {"target": target, "msgs": msgs}
+
+    return hist()
+
+
+def _history_cls(c):
+    t = c["target"]
+    fam = "engine_" + t.split(":")[2] if t.startswith("engine:") else "front_end_" + t
+    return fam
+
+
+def drv_history(ctx: Ctx, sub: SubCheck):
+    def distinct(c):
+        return len({json.dumps(m, sort_keys=True) for m in c["msgs"]})
+
+    _hyp(ctx, sub, st_history(), oracle_history, 40, 800,
+         lambda c, t: (t.case(sub.name, key=c, nontrivial=distinct(c) >= 2, cls=_history_cls(c)), t.cls(sub.name, f"history_length_{min(len(c['msgs']), 6)}{'+' if len(c['msgs']) >= 6 else ''}")))
+    # directed two-step histories: a message, then the same message zero-extended inside its last octet (and back)
+    for target in HISTORY_TARGETS:
+        if target.startswith("engine:") or target in ("crc8", "crc9"):
+            extra = {"mask": "Rate34DataContinuation"} if target == "crc9" else {}
+            for a, b in (("1", "10"), ("10", "1"), ("0000001", "00000010"), ("1" * 13, "1" * 13 + "000"), ("1011", "1011")):
+                case = {"target": target, "msgs": [dict(bits=a, **extra), dict(bits=b, **extra), dict(bits=a, **extra)]}
+                ctx.run_case(sub.name, oracle_history, case)
+                ctx.tally.case(sub.name, key=case, nontrivial=(a != b), cls="directed_same_packed_octets")
+
+
 SUBCHECKS = [
     SubCheck("captured_vectors", oracle_captured, drv_captured, "reference and library agree with CRC values captured from real radios"),
     SubCheck("engine_every_length", oracle_engine, drv_engine_lengths, "5 configs x every length 0..400 x {0s, 1s, random}: all calculators == M(x)x^w mod G"),
     SubCheck("engine_unit_vectors", oracle_engine, drv_engine_units, "all unit vectors of 7 lengths per config (with linearity: every message)"),
     SubCheck("engine_random", oracle_engine, drv_engine_random, "Hypothesis: (config, length 0..400, contents, previous message)"),
+    SubCheck("history", oracle_history, drv_history, "sequences of (related) messages through ONE calculator / front-end singleton from import-time state: each result is that message's own CRC"),
     SubCheck("engine_linearity", oracle_linearity, drv_linearity, "Hypothesis: crc(a^b) == crc(a)^crc(b), both register modes"),
     SubCheck("front_crc8", oracle_front, make_front_driver("crc8", 50, 1200), "CRC8.calculate/check == plain remainder"),
     SubCheck("front_crc9", oracle_front, make_front_driver("crc9", 50, 1200), "CRC9.calculate == inverted remainder ^ mask (3 masks)"),
